@@ -277,7 +277,12 @@ def check(ctx):
     for r in rets:
         v = r.ast.value
         if isinstance(v, ast.Tuple) and len(v.elts) == 2 and isinstance(v.elts[0], ast.Call) and id(r) in lit_of:
-            cls = ast.unparse(v.elts[0].func).lower()
+            fexpr = v.elts[0].func
+            if isinstance(fexpr, ast.Name):
+                srcs_ = value_sources(gp, fexpr, r)
+                if len(srcs_) == 1 and srcs_[0][0] == "expr" and isinstance(srcs_[0][1], (ast.Name, ast.Attribute)):
+                    fexpr = srcs_[0][1]      # provider_cls = AesProvider
+            cls = ast.unparse(fexpr).lower()
             good = str(lit_of[id(r)]) in cls
             ctx.ob("method.matches-provider", gp, v, good, "provider class and recorded method agree" if good else
                    "recorded method %r does not match provider %s" % (lit_of[id(r)], ast.unparse(v.elts[0].func)), node=r)
@@ -285,8 +290,11 @@ def check(ctx):
     for r in returns_of(an, encrypt):
         v = r.ast.value
         good = False
-        if isinstance(v, ast.Call) and v.args:
-            for kind, payload in value_sources(encrypt, v.args[0], r):
+        marg = None
+        if isinstance(v, ast.Call):
+            marg = v.args[0] if v.args else next((k.value for k in v.keywords if k.arg == "method"), None)
+        if marg is not None:
+            for kind, payload in value_sources(encrypt, marg, r):
                 if kind == "unpack" and payload[1] == 1 and isinstance(payload[0], ast.Call) and \
                         any(c is gp for c in an.callees(encrypt, g.nodes_for(payload[0])[0])):
                     good = True
